@@ -6,8 +6,8 @@ from ..models import linktable, stencil, topo
 
 ID = "C03"
 NEEDS_SHIM = False
-BUDGET = {"quick": 800, "thorough": 30000}
-MIN_EVALS = {"quick": 700, "thorough": 25000}
+BUDGET = {"quick": 2000, "thorough": 40000}
+MIN_EVALS = {"quick": 1500, "thorough": 30000}
 RULE = (
     "seeded random decompositions: a periodic or open rectangular domain of Kx x Ky in {1x1,2x1,1x2,3x1,2x2,3x2,2x3} "
     "square faces of N in 2..5 cells, an independent D4 orientation per face drawn until every junction is expressible "
@@ -36,7 +36,10 @@ def gen_case(rng, i, tier):
             "op": rng.choice(["diff", "interp", "min", "max"]), "axis": rng.choice("XY"), "to": rng.choice(["left", "right"]),
             "rule": {a: rng.choice(gen.RULES) for a in "XY"}, "fill": float(rng.choice([-9, -2.5, 0, 4])),
             "rule_level": rng.choice(["grid", "call"]), "data": rng.choice(["unique", "quarter"]), "dseed": rng.getrandbits(31),
-            "to_default": rng.random() < 0.15}
+            "to_default": rng.random() < 0.15,
+            # a third axis that takes no part in the face connections (say, the vertical): operating along it must be
+            # the plain stencil with that axis' own rule, and it must not disturb operations along X or Y
+            "zaxis": ({"n": rng.randint(2, 4), "op_along_z": rng.random() < 0.4, "rule": rng.choice(gen.RULES)} if rng.random() < 0.3 else None)}
 
 
 def selftest(ctx):
@@ -71,6 +74,9 @@ def run_case(ctx, desc):
         "y": ("y", np.arange(N) + 0.5), "yl": ("yl", np.arange(N) * 1.0), "yr": ("yr", np.arange(N) + 1.0),
         "face": ("face", np.arange(T.nf)), **{e: (e, np.arange(n) * 1.0) for e, n in desc["extra"].items()}})
     cm = {"X": {"center": "x", "left": "xl", "right": "xr"}, "Y": {"center": "y", "left": "yl", "right": "yr"}}
+    z = desc.get("zaxis")
+    if z:
+        return run_with_z(ctx, desc, T, t, ds, cm, z)
     rule, fv = desc["rule"], desc["fill"]
     gkw, ckw = {}, {}
     if desc["rule_level"] == "grid":
@@ -162,3 +168,78 @@ def run_case(ctx, desc):
             ctx.violation("invariant-to-face-cut", f"{op} {a}->{to} on {Kx}x{Ky} faces N={N} periodic={desc['periodic']} orientations {desc['orients']}: "
                                                   f"face {w[0]} cell (j={w[1]}, i={w[2]}) = {R2[k][w]}, undivided domain gives {exp[w]}; rule {rule[a]}")
             return
+
+
+def run_with_z(ctx, desc, T, t, ds, cm, z):
+    """Variant with an unconnected third axis Z (center/left): data (z, face, y, x)."""
+    import xarray as xr
+    from xgcm import Grid
+
+    N, nz = desc["N"], z["n"]
+    ds = ds.assign_coords(z=("z", np.arange(nz) + 0.5), zl=("zl", np.arange(nz) * 1.0))
+    cm = dict(cm, Z={"center": "z", "left": "zl"})
+    rule = dict(desc["rule"], Z=z["rule"])
+    fv = desc["fill"]
+    t_listed = linktable.listed_in_order(t, desc["dseed"]) if desc["dseed"] % 2 else t
+    try:
+        g = Grid(ds, coords=cm, face_connections={"face": t_listed}, periodic=False, boundary=rule, fill_value=fv, autoparse_metadata=False)
+    except Exception as e:
+        ctx.judged(("ctor-z",), True)
+        ctx.violation("geometric-table-accepted", f"Grid with an extra unconnected axis raised {type(e).__name__}: {str(e)[:200]}")
+        return
+    W, H = desc["Kx"] * N, desc["Ky"] * N
+    Gs = [gen.quarter_data(desc["dseed"] + k, (H, W)) for k in range(nz)]
+    Fs = np.stack([T.cut(G) for G in Gs])  # [z, face, j, i]
+    dims = ["z", "face", "y", "x"]
+    order = list(np.random.default_rng(desc["dseed"]).permutation(4))
+    da = xr.DataArray(Fs, dims=dims).transpose(*[dims[k] for k in order])
+    op, fop = desc["op"], stencil.OPS[desc["op"]]
+    if z["op_along_z"]:
+        ckey = ("z-axis", "along-z", op, z["rule"], (desc["Kx"], desc["Ky"]))
+        ctx.judged(ckey, True)
+        try:
+            r = getattr(g, op)(da, "Z", to="left")
+        except Exception as e:
+            ctx.violation("well-posed-call-returns", f"{op} along the unconnected axis Z raised {type(e).__name__}: {str(e)[:200]}")
+            return
+        exp = stencil.op_last_axis(np.moveaxis(Fs, 0, -1), op, "center", "left", nz, z["rule"], fv)
+        got = r.transpose("face", "y", "x", "zl").values
+        if not np.array_equal(got, exp):
+            ctx.violation("unconnected-axis-plain-stencil", f"{op} along Z (rule {z['rule']}) on a face-connected grid differs from the plain stencil")
+        return
+    a, to = desc["axis"], desc["to"]
+    ckey = ("z-axis", "along-" + a, op, to, (desc["Kx"], desc["Ky"]), desc["periodic"])
+    ctx.judged(ckey, True)
+    try:
+        r = getattr(g, op)(da, a, to=to)
+    except Exception as e:
+        ctx.violation("well-posed-call-returns", f"{op} along {a} with an extra axis Z on the grid raised {type(e).__name__}: {str(e)[:200]}")
+        return
+    nd = cm[a][to]
+    R = r.transpose("z", "face", *(["y", nd] if a == "X" else [nd, "x"])).values
+    for k in range(nz):
+        G, F = Gs[k], Fs[k]
+
+        def cell(f, i, j):
+            if 0 <= i < N and 0 <= j < N:
+                return F[f, j, i]
+            idx = i if a == "X" else j
+            side = 0 if idx < 0 else 1
+            if t[f][a][side] is not None:
+                c = T.neighbour(f, i, j)
+                return G[c[1], c[0]]
+            if rule[a] == "fill":
+                return fv
+            kk = min(max(idx, 0), N - 1) if rule[a] == "extend" else idx % N
+            return F[f, j, kk] if a == "X" else F[f, kk, i]
+
+        for f in range(T.nf):
+            for j in range(N):
+                for i in range(N):
+                    q = i if a == "X" else j
+                    lo, hi = (q - 1, q) if to == "left" else (q, q + 1)
+                    l = cell(f, lo, j) if a == "X" else cell(f, i, lo)
+                    rr = cell(f, hi, j) if a == "X" else cell(f, i, hi)
+                    if R[k, f, j, i] != fop(l, rr):
+                        ctx.violation("invariant-to-face-cut", f"{op} {a}->{to} with an unconnected axis Z present: level {k} face {f} cell (j={j}, i={i}) = {R[k, f, j, i]}, undivided domain gives {fop(l, rr)}")
+                        return
